@@ -2,6 +2,7 @@
   C11 — Pause blocks every state-changing path except the owner's unpause.
 -/
 import Krp.Props.C10
+import Krp.Lemmas.Reach
 namespace Krp
 open HubSt
 
@@ -98,5 +99,13 @@ theorem C11_pause_unpause_identity (h h1 h2 : HubSt) (hthr : h.thr ≤ D)
 /-! Non-vacuity. -/
 example : ∃ h : HubSt, h.isPaused = true :=
   ⟨{ (default : HubSt) with paused := some true }, rfl⟩
+
+/-- As a whole transaction: while the hub is paused, a top-level hub message other than UpdateParams /
+    MigrateUnbondWaitList — from anyone, with or without funds — fails and changes nothing anywhere. -/
+theorem C11_system_paused (s : Sys) (sender : Addr) (funds : List (Denom × Nat)) (hm : HubMsg)
+    (hp : s.hub.isPaused = true)
+    (hne : (∀ a b c d p r, hm ≠ .updateParams a b c d p r) ∧ (∀ l, hm ≠ .migrateWaitList l)) :
+    ∃ err, s.exec (.wasm sender hubA (.hub hm) funds) = (s, .error err) :=
+  exec_rejected_hub s sender funds hm (fun e _ => C11_paused_blocks s.hub e sender funds hm hp hne)
 
 end Krp
